@@ -182,6 +182,33 @@ def rule_lost_update(ctx, rep):
                           f"({cm.id})")
 
 
+def rule_no_swallow(ctx, rep):
+    rep.rule(
+        "R-NO-SWALLOW",
+        "on the dispatch path from a reported location to its rewrite (libcst_transformer.py, base_visitor.py) a broad exception handler "
+        "either re-raises or records the failure (add_failure / report_unfixed); swallowing an error raised by on_result_found leaves a "
+        "flagged location neither rewritten nor listed as failed",
+        min_instances=2,
+    )
+    n = 0
+    for modname in ("codemodder.codemods.libcst_transformer", "codemodder.codemods.base_visitor", "codemodder.codemods.api"):
+        mod = ctx.prog.module(modname)
+        for fn in [f for f in ctx.prog.functions.values() if f.module is mod]:
+            for tr in [t for t in walk_no_nested(fn.node) if isinstance(t, ast.Try)]:
+                for h in tr.handlers:
+                    types = {"<bare>"} if h.type is None else {last_attr(e) or unparse(e) for e in (h.type.elts if isinstance(h.type, ast.Tuple) else [h.type])}
+                    if not (types & {"Exception", "BaseException", "<bare>"}):
+                        continue
+                    n += 1
+                    reraises = any(isinstance(x, ast.Raise) for st in h.body for x in ast.walk(st))
+                    records = any(isinstance(x, ast.Call) and last_attr(x.func) in ("add_failure", "report_unfixed", "add_unfixed_findings") for st in h.body for x in ast.walk(st))
+                    rep.check("R-NO-SWALLOW", fn.qname, fn.loc(h), reraises or records, "broad-handler",
+                              f"`except {', '.join(sorted(types))}` in {fn.name} neither re-raises nor records a failure: an error while rewriting a reported "
+                              "location is silently dropped (location not rewritten, file not listed as failed)")
+    if n < 2:
+        raise AnalysisError("broad handlers of the libcst pipeline not found (anchor vanished)")
+
+
 def check(ctx, rep):
     rep.explanation = (
         "Detector and transformer describe the same construct twice (semgrep YAML and libcst code). The rule reader and the effect "
@@ -191,6 +218,7 @@ def check(ctx, rep):
     fixed_image(ctx, rep)
     rule_hook_kind(ctx, rep)
     rule_lost_update(ctx, rep)
+    rule_no_swallow(ctx, rep)
     rep.not_covered += [
         "agreement of semgrep positions with libcst positions for all spellings (line/column matching)",
         "semgrep's matching semantics in general (metavariable unification, taint propagation)",
